@@ -82,7 +82,14 @@ def gen_case(ctx):
         e["kind"] = rng.choice(JOINTS)
     elif group == "curve":
         e["kind"] = rng.choice(CURVES)
-    return {"entity": e, "maps": gen_maps(rng), "via": rng.choice(["method", "transform"])}
+    maps = gen_maps(rng)
+    if group == "point":
+        # a point's own centre is itself: `rotate(origin=None)` means the global origin for the method but the point
+        # itself for transform([...]) - the default is not defined by the statement, so an origin is always given
+        for m in maps:
+            if m["k"] != "translate" and m.get("origin") is None:
+                m["origin"] = geom.rand_vec(rng, -4, 4)
+    return {"entity": e, "maps": maps, "via": rng.choice(["method", "transform"])}
 
 
 # ------------------------------------------------------------------------------------------------ entities
@@ -221,7 +228,8 @@ def make_sketch(k, rng, o, fr, cb):
     if k == "halfdisk":
         return cb.HalfDisk(list(o), rp, n)
     if k == "wrapped":
-        return cb.WrappedDisk(list(o), list(o + fr[0] * r * 0.5 + fr[1] * r * 0.5), r, n)
+        # the disk must fit inside the square: radius < distance from the centre to the square's side
+        return cb.WrappedDisk(list(o), list(o + fr[0] * r * 0.5 + fr[1] * r * 0.5), r * rng.uniform(0.25, 0.42), n)
     if k == "oval":
         return cb.Oval(list(o), list(o + fr[1] * rng.uniform(1, 2)), n, r * 0.6)
     if k == "annulus":
@@ -538,6 +546,16 @@ def judge_curve(ctx, X, Y, A, scale_total, tag, mkinds, e):
     if e["kind"] == "discrete":
         ts = [0, 2, 3, 6]
     size = 3.0 * max(1.0, scale_total)
+    if e["kind"] == "circlecurve" and "mirror" in mk:
+        # a reflection reverses the sense of rotation: the mirrored circle is the same point set traversed the other
+        # way round, so it is compared as a set (dense samples), not parameter by parameter
+        dense_y = np.array([Y.get_point(lo + (hi - lo) * k / 256) for k in range(257)])
+        for t in ts:
+            d = geom.point_polyline_distance(A(X.get_point(t)), dense_y)
+            if d > 1e-3 * size:
+                ctx.violation(f"curve-point:{tag}:{mk}", f"{mkinds}: image of the point at parameter {t} is {d} off the transformed circle")
+                return
+        ts = []
     for t in ts:
         d = float(np.linalg.norm(Y.get_point(t) - A(X.get_point(t))))
         if d > 1e-7 * size:
